@@ -17,7 +17,7 @@
 (***************************************************************************)
 EXTENDS CCEval, CCTyping, Json, IOUtils, FiniteSetsExt
 
-CONSTANTS NSamples      \* number of sampled (input, randomness) assignments per case when the input space is large
+CONSTANTS NSamples      \* number of (input, randomness) assignments tried per case
 
 Cases == ndJsonDeserialize(IOEnv.CASES)
 NC == Len(Cases)
@@ -133,27 +133,37 @@ EntryValues(e) == AllValues(e[3])
 
 RndIdsB(c) == {n \in 1..Len(Before(c)) : Before(c)[n].op = "Random" /\ ~IsKeyType(Before(c)[n].ty)}
 
-\* one random assignment of inputs and draws for case c
-RandomAssignment(c) ==
+\* Assignments of inputs and draws are derived deterministically from (case, sample number): a small
+\* multiplicative hash replaces RandomElement, so runs are reproducible and an assignment is one value
+\* however often TLC re-evaluates the expression.
+Hash(a) == ((a % 65521) * 75 + 74) % 65537
+RECURSIVE DetValue(_, _)
+DetValue(t, seed) ==
+  IF t.k \in {"s", "a"} THEN [e \in 1..NumEl(t) |-> Hash(Hash(seed + 7 * e)) % Modulus(t.st)]
+  ELSE LET cs == Components(t) IN [e \in 1..Len(cs) |-> DetValue(cs[e], Hash(seed + 13 * e))]
+
+Assignment(c, s) ==
   LET B == Before(c)
       its == [k \in 1..Len(InputNodes(B)) |-> B[InputNodes(B)[k]].ty]
-  IN [ins |-> [k \in 1..Len(its) |-> RandomElement(AllValues(its[k]))],
-      rnd |-> [n \in RndIdsB(c) |-> RandomElement(AllValues(B[n].ty))],
-      prf |-> [e \in PrfEntriesB(c) |-> RandomElement(EntryValues(e))]]
+      base == Hash(1000 * s + Cases[c].id)
+  IN [ins |-> [k \in 1..Len(its) |-> DetValue(its[k], Hash(base + 101 * k))],
+      rnd |-> [n \in RndIdsB(c) |-> DetValue(B[n].ty, Hash(base + 211 * n))],
+      prf |-> [e \in PrfEntriesB(c) |-> DetValue(e[3], Hash(base + 307 * e[1].rnd + 401 * e[2]))]]
 
 \* identity under which a node of `after` draws: its randomising preimage (itself if the contract is already broken)
 IdAfter(c) == [n \in 1..Len(After(c)) |->
                  IF RandPre(c, n) # {} THEN CHOOSE o \in RandPre(c, n) : TRUE ELSE 0]
 
-SameValues(c, asg) ==
-  LET B == Before(c)  A == After(c)
+SameValues(c, asg0) ==
+  LET asg == TLCEval(asg0)
+      B == Before(c)  A == After(c)
       vb == EvalR(B, Plans(B), 1, <<>>, asg.ins, [n \in 1..Len(B) |-> n], asg)
       va == EvalR(A, Plans(A), 1, <<>>, asg.ins, IdAfter(c), asg)
   IN \A k \in 1..Len(MapOf(c)) : vb[MapOf(c)[k][1]] = va[MapOf(c)[k][2]]
 
 Meaning(c) ==
   (Interpretable(Before(c)) /\ Interpretable(After(c)) /\ Fresh(c)) =>
-     \A s \in 1..NSamples : SameValues(c, RandomAssignment(c))
+     \A s \in 1..NSamples : SameValues(c, Assignment(c, s))
 
 ---------------------------------------------------------------------------
 (* C04 on the stages of the real compilation pipeline (recorded by the stage tracer hook):       *)
